@@ -150,7 +150,14 @@ func (a *Activation) callContract(ins *ssa.Call, g *ssa.Function, spec *FuncSpec
 			}
 		}
 	}
-	x.havoc(st, pre, ws, fr, nil)
+	var allocT map[string]bool
+	{
+		at := map[string]bool{}
+		if x.eng.allocTypes(g, subst, 0, map[string]bool{}, at) {
+			allocT = at
+		}
+	}
+	x.havocT(st, pre, ws, fr, allocT)
 	// results
 	sig := g.Signature
 	var rs []Val
